@@ -248,6 +248,15 @@ theorem parseLoop_skip {σ : Type} (step : σ → Tok → List Tok → σ × Lis
     rw [List.cons_append, parseLoop_cons _ _ _ _ (by rw [h t (by simp)]; simp), h t (by simp)]
     exact ih (fun y hy => h y (by simp [hy]))
 
+theorem parseLoop_skip_inv {σ : Type} (step : σ → Tok → List Tok → σ × List Tok) (P : σ → Prop)
+    (g x : List Tok) (h : ∀ t ∈ g, ∀ s rest, P s → step s t rest = (s, rest)) (s : σ) (hs : P s) :
+    parseLoop step s (g ++ x) = parseLoop step s x := by
+  induction g with
+  | nil => rfl
+  | cons t ts ih =>
+    rw [List.cons_append, parseLoop_cons _ _ _ _ (by rw [h t (by simp) s _ hs]; simp), h t (by simp) s _ hs]
+    exact ih (fun y hy => h y (by simp [hy]))
+
 theorem nameStep_gap (t : Tok) (ht : isGapTok t = true) (s : NameSt) (rest : List Tok) :
     nameStep s t rest = (s, rest) := by
   simp only [isGapTok, Bool.or_eq_true, beq_iff_eq] at ht
